@@ -33,7 +33,7 @@ def _sum_into(agg, d):
 
 
 def write(prop, tier, batch_seed, results, *, search_wall, total_wall, n_violations, known_hits,
-          harness_errors, workers):
+          harness_errors, workers, timeouts=()):
     os.makedirs(os.path.join(VERIF, "evidence"), exist_ok=True)
     agg: dict = {}
     cells, bigrams, states, inter, hists = {}, set(), set(), set(), set()
@@ -84,6 +84,7 @@ def write(prop, tier, batch_seed, results, *, search_wall, total_wall, n_violati
         "components": COMPONENTS,
         "known_findings_matched": sorted(set(known_hits)),
         "harness_errors": len(harness_errors),
+        "runs_discarded_at_wall_cap": [int(x) for x in timeouts],
         "exhaustive": False,
     }
     ev = {
